@@ -1,4 +1,22 @@
 add("C16", "checks/c16_floattext.c", ["default-plain", "dtostre-plain", "dtostre-asan"], ["default-plain", "default-asan", "dtostre-plain", "dtostre-asan"],
-    "TODO",
+    "evaluations = texts produced by the library and judged (per value: SCPI_DoubleToStr, SCPI_FloatToStr on the nearest float, SCPI_dtostre at each "
+    "precision 1..15; one value in ~24-32 additionally SCPI_ResultDouble/SCPI_ResultFloat through a real context). Values: enumerated = every power of "
+    "ten 1e-323..1e308 with neighbours, negatives, p nines that carry into it (p = 1..16) and float versions; d*10^k + 10^(k-z) for d 1..9, every k, "
+    "z 1..17 (a zero run at every mantissa position); integers 0..4095; ~150 hand-picked switch points/ties/extremes, NaNs, infinities, zeros; "
+    "boundaries = random d.ddd5 decimals (p = 1..16 digits before the 5, doubles and floats) with both neighbours and exactly representable ties; "
+    "random = bit patterns over the full exponent range, subnormals, short decimals, integers, float bit patterns, everyday magnitudes. The same phases "
+    "run in every build with a per-build salt; the -O2 builds carry 8x the random workload of the ASan+UBSan builds (exact-size 40..64 byte heap output "
+    "buffers). distinct_nontrivial counts distinct value bit patterns on a 1/8 subsample (lower bound). offline_rechecked_records = stratified sample "
+    "of (value bits, site, precision, text) re-decided by py/c16_decimal.py with integer arithmetic only",
     post="py/c16_decimal.py",
-    technique="TODO", level_text="TODO", level_note="TODO", assumptions=["TODO"])
+    exhaustive=dict(quick=False, thorough=False),
+    technique="differential runtime monitor: every text the real formatter emits is compared with the correctly rounded decimal (glibc %.*e digits + own %g layout rule, "
+              "exact 128-bit distance in units of the last requested digit) in-process; a stratified record stream is re-decided offline from the bit pattern with integer arithmetic only",
+    level_text="exploration by execution: ~1.4 M values x 17 texts (quick), ~55 M values (thorough) over all enumerable boundary classes plus random bit patterns; the universal claim over 2^64 doubles x 15 precisions is sampled, not enumerated",
+    level_note="trusted in-process: glibc snprintf(\"%.*e\") correct rounding and strtod for building inputs; not trusted for the sampled records (exact integer re-check). "
+               "dtostre oracle is the one-unit tolerance of DESIGN.md measured against the correctly rounded p-digit decimal (at exact ties against the nearer neighbour); a text one unit off that is "
+               "shorter than the rounded decimal is accepted (indistinguishable from a one-unit-low digit generator whose digits end in zeros); held means held on the values executed",
+    assumptions=["glibc snprintf(\"%.*e\") rounds correctly (half-even on the exact value) - cross-checked on the recorded sample by exact integer arithmetic in py/c16_decimal.py",
+                 "%g layout rule in checks/c16_floattext.c and py/c16_decimal.py (written twice from C11 7.21.6.1) is right",
+                 "output buffers of 40..64 bytes (smaller buffers are C15's subject)",
+                 "gcc -O2 / clang -O1 ASan+UBSan builds of the working tree; x86-64 double arithmetic (no x87 excess precision) for scpi_ecvt"])
